@@ -73,6 +73,29 @@ BUILT["C09"] = (
     "Trusts the line classifier that decides where noise may be inserted (not inside ~O) and the generated family's renderer; compositions of more than two transformations are not covered.",
 )
 
+BUILT["C01"] = (
+    "exploration",
+    "exhaustive enumeration of (curve count, row count) x writer-option deviation ball + full sub-products x engine on the real writer and reader",
+    "Every shape (quick: 10 curve counts x 3 row counts; thorough: 1..40 curves x 4 row counts, hence every multiple of "
+    "the fields-per-wrapped-line for every width in the alphabet) with cells rotating through a palette spanning the "
+    "float64 range, NaN outside the index and the NULL value inside it, is written under every configuration within "
+    "2 deviations of the default (11 option axes) plus full products of the interacting axes, and read back with both "
+    "engines: curve count/order/mnemonics/rows equal, every finite cell within half a unit of the last printed digit "
+    "(computed independently with decimal), NaN <-> NaN, index never nulled.",
+    "Trusts Python's % formatting as the definition of 'the last digit the format prints'; wrap=True together with a "
+    "COMMA/TAB delimiter is outside the explored space (DESIGN.md observations).",
+)
+BUILT["C03"] = (
+    "exploration",
+    "exhaustive enumeration of header item lists (all singles of the field product, ordered pairs/triples over reduced palettes) x section x version x mnemonic_case through write() and read()",
+    "Every conformant single item of mnemonic(7) x unit(7) x value(12) x description(6), every ordered pair over a "
+    "36-kind palette (each kind in turn the widest, next to empty-unit/empty-value neighbours), duplicates and blanks, "
+    "thorough: every ordered triple over 12 kinds and all three mnemonic cases, placed in ~Version, ~Well, ~Curves or "
+    "~Parameter, written as 1.2 and 2.0 and read back: same items, order, original mnemonics (case-mapped), units, "
+    "values (numerically) and descriptions, same ~Other; only the differences the statement permits are accepted.",
+    "Trusts the LASFile/HeaderItem constructors to hold what they are given (snapshot taken before write); field contents outside the palettes are not covered.",
+)
+
 PENDING_REASON = "check not built yet in this round (design in DESIGN.md section 3); nothing is claimed for it"
 
 
